@@ -2,7 +2,7 @@
 import re
 import gen
 from histcheck import chain_case
-from props.evalcommon import standard_run, standard_replay
+from props.evalcommon import standard_run, standard_replay, small_scope
 from wire import from_wire
 
 PID = "C07"
@@ -119,7 +119,7 @@ def run(rep):
     standard_run(rep, PID, gen_case, nontrivial, "marker handling differs", 4000, 200000,
                  "1-3 layer chains with $required sprinkled over map values/list entries and directive-shaped keys/strings "
                  "(known, unknown, misspelt, misplaced) injected anywhere, incl. under $output:false and inside $encode subtrees; "
-                 "non-trivial = contains a $ string", oracle=oracle)
+                 "non-trivial = contains a $ string", oracle=oracle, extra_gens=[small_scope(PID)])
 
 
 def replay(rep, payload):
